@@ -3,7 +3,9 @@
    secondary, sb_* balanced secondary), literal transcriptions of link_layer.c with the clock explicit.
    Variant flags: fa = nextFcb re-initialised when RESET REMOTE LINK is sent (proposed_fixes/C15-fcb-not-reset),
    fb = balanced secondary repeats the confirmation (C15-balanced-duplicate-no-ack), fc_ = a request is repeated
-   with its own function code (C15-class1-repeated-as-class2).  Theorems named _refuted are about the original code. *)
+   with its own function code (C15-class1-repeated-as-class2), fg = a link test request is cleared when the test frame is sent and
+   what is retransmitted / confirmed is what is outstanding, not what was requested meanwhile, fh = a negative answer ends a
+   REQUEST/RESPOND service of the unbalanced primary.  Theorems named _refuted are about the original code. *)
 From Coq Require Import ZArith List Bool.
 From L60870 Require Import Link.Ft12 Link.LinkSec Link.LinkPrim Link.LinkProofs Link.LinkHist.
 Import ListNotations.
@@ -35,16 +37,26 @@ Theorem C15_toggle_balanced : forall v c now dir p d rest,
   let '(p', q', o) := pb_run v c now dir p (d :: rest) in
   o = fcv_frame c 3 (pb_other p) dir (pb_nfcb p) d /\ q' = rest /\
   pb_ps p' = PLL_SEND_CONFIRM /\ pb_nfcb p' = negb (pb_nfcb p) /\ pb_last p' = d /\ pb_test p' = false /\
-  pb_lastsend p' = now /\ pb_origsend p' = now /\ pb_other p' = pb_other p.
+  pb_lastsend p' = now /\ pb_origsend p' = now /\ pb_other p' = pb_other p /\ (fg v = true -> pb_tout p' = false).
 Proof. exact pb_send_new. Qed.
 
-Theorem C15_retransmit_identical_balanced : forall v c t0 t1 dir p d rest,
+(* req = the application asked for a link test while the frame was waiting for its confirmation: the retransmission is the
+   identical frame all the same, and the request stays pending (repaired code, variant g) *)
+Theorem C15_retransmit_identical_balanced : forall v c t0 t1 dir p d rest (req : bool), fg v = true ->
   pb_ps p = PLL_AVAILABLE -> pb_test p = false -> t0 - clamp (pb_lastrx p) t0 <= pb_idle p ->
   0 <= t_ack c -> t0 + t_ack c < t1 -> t1 <= t0 + t_rep c ->
   let '(p1, q1, o1) := pb_run v c t0 dir p (d :: rest) in
-  let '(p2, q2, o2) := pb_run v c t1 dir p1 [] in
-  o2 = o1 /\ pb_nfcb p2 = pb_nfcb p1 /\ pb_nfcb p1 = negb (pb_nfcb p).
+  let '(p2, q2, o2) := pb_run v c t1 dir (if req then pb_with_test p1 true else p1) [] in
+  o2 = o1 /\ pb_nfcb p2 = pb_nfcb p1 /\ pb_nfcb p1 = negb (pb_nfcb p) /\ pb_test p2 = req.
 Proof. exact pb_retransmit_identical. Qed.
+
+(* original code: the retransmission of lost user data is replaced by a test frame with the same bit *)
+Theorem C15_retransmit_identical_balanced_refuted : exists v c t0 t1 dir p d,
+  fg v = false /\ pb_ps p = PLL_AVAILABLE /\ pb_test p = false /\ t0 + t_ack c < t1 /\ t1 <= t0 + t_rep c /\
+  let '(p1, q1, o1) := pb_run v c t0 dir p [d] in
+  let '(p2, q2, o2) := pb_run v c t1 dir (pb_with_test p1 true) [] in
+  o1 = fcv_frame c 3 2 dir true d /\ o2 = [OTx (enc_fixed 1 2 2 true dir true true)].
+Proof. exact pb_retransmit_identical_refuted. Qed.
 
 Theorem C15_repeat_stops_balanced : forall v c now dir p,
   pb_ps p = PLL_SEND_CONFIRM -> pb_lastsend p <= now -> pb_lastsend p + t_ack c < now -> pb_origsend p + t_rep c < now ->
@@ -72,10 +84,51 @@ Theorem C15_first_after_reset_balanced_refuted : exists v c now dir p d,
 Proof. exact pb_first_after_reset_refuted. Qed.
 
 (* ---------------- primary, unbalanced (per slave) *)
-Theorem C15_retransmit_identical_unbalanced : forall v c t0 t1 s,
+Theorem C15_retransmit_identical_unbalanced : forall v c t0 t1 s (req : bool), fg v = true ->
   sc_ps s = PLL_AVAILABLE -> sc_test s = false -> sc_has s = true -> 0 <= t_ack c -> t0 + t_ack c < t1 -> t1 <= t0 + t_rep c ->
-  let '(s1, o1) := sc_run v c t0 s in let '(s2, o2) := sc_run v c t1 s1 in o2 = o1.
+  let '(s1, o1) := sc_run v c t0 s in let '(s2, o2) := sc_run v c t1 (if req then sc_with_test s1 true else s1) in o2 = o1.
 Proof. exact sc_retransmit_identical. Qed.
+
+(* each message is a new frame once: its confirmation takes it, whatever the application requested meanwhile (variant g) *)
+Theorem C15_confirmation_takes_message_unbalanced : forall v c now s acd address msg uds udl, fg v = true -> sc_ps s = PLL_SEND_CONFIRM ->
+  let s' := fst (sc_handle v c now s 0 acd false address msg uds udl) in
+  sc_has s' = false /\ sc_ps s' = PLL_AVAILABLE /\ sc_test s' = sc_test s /\ sc_nfcb s' = sc_nfcb s.
+Proof. exact sc_confirm_takes_message. Qed.
+
+Theorem C15_confirmation_takes_message_unbalanced_refuted : exists v c now s,
+  fg v = false /\ sc_ps s = PLL_SEND_CONFIRM /\ sc_has s = true /\
+  let s1 := fst (sc_handle v c now s 0 false false 1 [] 0 0) in
+  let '(s2, o2) := sc_run v c now s1 in
+  sc_has s1 = true /\ o2 = fcv_frame c 3 1 false (sc_nfcb s) (sc_msg s).
+Proof. exact sc_confirm_takes_message_refuted. Qed.
+
+Theorem C15_test_request_served_once_unbalanced : forall v c now s, fg v = true -> sc_ps s = PLL_AVAILABLE -> sc_test s = true ->
+  let '(s', o) := sc_run v c now s in
+  o = [OTx (enc_fixed (alen c) 2 (sc_addr s) true false (sc_nfcb s) true)] /\ sc_test s' = false /\ sc_ps s' = PLL_REQUEST_RESPOND /\
+  sc_has s' = sc_has s /\ sc_msg s' = sc_msg s /\ sc_nfcb s' = negb (sc_nfcb s) /\ sc_lastfc s' = 2.
+Proof. exact sc_test_request_served. Qed.
+
+Theorem C15_test_request_served_once_unbalanced_refuted : exists v c now s,
+  fg v = false /\ sc_ps s = PLL_AVAILABLE /\ sc_test s = true /\ sc_has s = true /\
+  let '(s1, o1) := sc_run v c now s in
+  let s2 := fst (sc_handle v c now s1 0 false false 1 [] 0 0) in
+  let '(s3, o3) := sc_run v c now s2 in
+  sc_test s2 = true /\ o3 = [OTx (enc_fixed 1 2 1 true false (negb (sc_nfcb s)) true)].
+Proof. exact sc_test_request_served_refuted. Qed.
+
+(* a negative answer (service not functioning / not implemented) ends a REQUEST/RESPOND service: link stays available (variant h) *)
+Theorem C15_negative_answer_ends_request : forall v c now s fc acd address msg uds udl, fh v = true -> fc = 14 \/ fc = 15 ->
+  sc_ps s = PLL_REQUEST_RESPOND ->
+  let '(s', o) := sc_handle v c now s fc acd false address msg uds udl in
+  sc_ps s' = PLL_AVAILABLE /\ sc_ls s' = LS_AVAILABLE /\ sc_nfcb s' = sc_nfcb s /\ sc_has s' = sc_has s /\ sc_test s' = sc_test s.
+Proof. exact sc_negative_answer_ends_request. Qed.
+
+Theorem C15_negative_answer_refuted : exists v c s t1,
+  fh v = false /\ sc_ps s = PLL_REQUEST_RESPOND /\
+  let s1 := fst (sc_handle v c 1100 s 15 false false 1 [] 0 0) in
+  let '(s2, o2) := sc_run v c t1 s1 in
+  sc_ps s1 = PLL_REQUEST_RESPOND /\ o2 = [OTx (enc_fixed 1 2 1 true false true true)].
+Proof. exact sc_negative_answer_refuted. Qed.
 
 Theorem C15_toggle_unbalanced_request : forall v c now s,
   sc_ps s = PLL_AVAILABLE -> sc_test s = false -> sc_has s = false -> (sc_r1 s = true \/ sc_r2 s = true) ->
@@ -109,14 +162,14 @@ Theorem C15_reset_sets_fcb_unbalanced_refuted : exists v c now s,
 Proof. exact sc_reset_fcb_refuted. Qed.
 
 (* ---------------- secondary *)
-Theorem C15_sec_deliver_once_unbalanced : forall c s bc fcb msg uds udl, su_ls s = LS_AVAILABLE -> fcb = su_efcb s -> 0 < udl ->
-  su_handle c s 3 bc fcb true msg uds udl =
+Theorem C15_sec_deliver_once_unbalanced : forall fi_ c s bc fcb msg uds udl, su_ls s = LS_AVAILABLE -> fcb = su_efcb s -> 0 < udl ->
+  su_handle fi_ c s 3 bc fcb true msg uds udl =
   (su_with_efcb s (negb (su_efcb s)),
    [OInd bc (user_data msg uds udl); OTx (su_ack c (su_with_efcb s (negb (su_efcb s))) (q_nonempty (su_q1 s)))]).
 Proof. exact su_fc3_new. Qed.
 
-Theorem C15_sec_duplicate_unbalanced : forall c s bc fcb msg uds udl, su_ls s = LS_AVAILABLE -> fcb = negb (su_efcb s) ->
-  su_handle c s 3 bc fcb true msg uds udl = (s, [OTx (su_ack c s (q_nonempty (su_q1 s)))]).
+Theorem C15_sec_duplicate_unbalanced : forall fi_ c s bc fcb msg uds udl, su_ls s = LS_AVAILABLE -> fcb = negb (su_efcb s) ->
+  su_handle fi_ c s 3 bc fcb true msg uds udl = (s, [OTx (su_ack c s (q_nonempty (su_q1 s)))]).
 Proof. exact su_fc3_dup. Qed.
 
 Theorem C15_sec_repeats_response : forall c s (cls cls' : bool) fcb d rest, fcb = su_efcb s ->
@@ -126,9 +179,25 @@ Theorem C15_sec_repeats_response : forall c s (cls cls' : bool) fcb d rest, fcb 
   o2 = o1 /\ s2 = s1.
 Proof. exact su_poll_repeat_identical. Qed.
 
-Theorem C15_sec_reset_unbalanced : forall c s fc bc msg uds udl, fc = 0 \/ fc = 7 ->
-  su_efcb (fst (su_handle c s fc bc false false msg uds udl)) = true.
+Theorem C15_sec_reset_unbalanced : forall fi_ c s fc bc msg uds udl, fc = 0 \/ fc = 7 ->
+  su_efcb (fst (su_handle fi_ c s fc bc false false msg uds udl)) = true.
 Proof. exact su_reset_expect. Qed.
+
+(* a frame with FCV = 1 whose service the unbalanced secondary does not implement (the primary's link test): answered negatively,
+   and it takes part in the alternation like every other FCV frame (variant fi); a repetition leaves the expectation alone *)
+Theorem C15_sec_unserved_frame_takes_bit : forall c s fc bc fcb msg uds udl, su_served fc = false -> fcb = su_efcb s ->
+  let '(s', o) := su_handle true c s fc bc fcb true msg uds udl in
+  su_efcb s' = negb (su_efcb s) /\ In (OTx (enc_fixed (alen c) 15 (su_addr s) false false false false)) o /\
+  su_q1 s' = su_q1 s /\ su_q2 s' = su_q2 s /\ su_udsz s' = su_udsz s /\ su_udbuf s' = su_udbuf s.
+Proof. exact su_unserved_takes_fcb. Qed.
+
+Theorem C15_sec_unserved_frame_repeated : forall fi_ c s fc bc fcb msg uds udl, su_served fc = false -> fcb = negb (su_efcb s) ->
+  su_efcb (fst (su_handle fi_ c s fc bc fcb true msg uds udl)) = su_efcb s.
+Proof. exact su_unserved_repeat. Qed.
+
+Theorem C15_sec_unserved_frame_takes_bit_refuted : exists c s, su_efcb s = true /\
+  su_efcb (fst (su_handle false c s 2 false true true [] 0 0)) = true.
+Proof. exact su_unserved_takes_fcb_refuted. Qed.
 
 Theorem C15_sec_deliver_once_balanced : forall v c addr dir s fcb msg uds udl, fcb = sb_efcb s -> 0 < udl ->
   sb_handle v c addr dir true s 3 fcb true msg uds udl =
